@@ -84,6 +84,58 @@ def nodes(b, max_nodes=400):
     return out
 
 
+def array_nodes(b, max_nodes=400):
+    """(start, end, [child spans]) of every array item of b (descending into byte strings that contain well-formed CBOR)"""
+    out = []
+
+    def walk(buf, base, it, depth):
+        if len(out) >= max_nodes or depth > 40:
+            return
+        if it.mt == 4:
+            out.append((base + it.start, base + it.end, [(base + c.start, base + c.end) for c in it.children]))
+            for c in it.children:
+                walk(buf, base, c, depth + 1)
+        elif it.mt == 5:
+            for k, v in it.children:
+                walk(buf, base, k, depth + 1)
+                walk(buf, base, v, depth + 1)
+        elif it.mt == 6:
+            walk(buf, base, it.tagged, depth + 1)
+        elif it.mt == 2 and it.content[1] - it.content[0] > 0:
+            inner = buf[it.content[0]:it.content[1]]
+            try:
+                sub = cw.parse(inner)
+                if sub.end == len(inner):
+                    walk(inner, base + it.content[0], sub, depth + 1)
+            except cw.Bad:
+                pass
+    try:
+        walk(b, 0, cw.parse(b), 0)
+    except cw.Bad:
+        pass
+    return out
+
+
+def _array_head(n):
+    return cbor2.dumps([0] * n)[:len(cbor2.dumps([0] * n)) - n]
+
+
+def arity_edits(env):
+    """every array of the envelope with one member too few (the last / the first dropped), one too many (the last repeated)
+    and emptied — the other members stay valid, so the parser reaches the position that is missing or surplus"""
+    out = []
+    for s, e, kids in array_nodes(env):
+        parts = [env[a:z] for a, z in kids]
+        variants = []
+        if parts:
+            variants += [parts[:-1], parts[1:], parts + [parts[-1]], parts[:1]]
+        if len(parts) > 2:
+            variants += [parts[:-2], parts[:len(parts) // 2]]
+        for v in variants:
+            out.append((fix_wrappers(env, (s, e), _array_head(len(v)) + b"".join(v)), f"array of {len(parts)} members rewritten with {len(v)}"))
+    return out
+
+
 def mutate_node(b, span, repl):
     """Replace one node; byte-string headers of enclosing layers are NOT fixed up on purpose (that is what an attacker does)."""
     return b[:span[0]] + repl + b[span[1]:]
@@ -259,6 +311,9 @@ def malformed_stream(ck, tmp, n_env):
                 inputs.append((fix_wrappers(env, sp, rep), "node replaced (wrappers rebuilt)"))
                 if rng.random() < 0.3:
                     inputs.append((mutate_node(env, sp, rep), "node replaced (raw splice)"))
+        # arity: arrays with a member too few / too many
+        ar = arity_edits(env)
+        inputs += ar if ck.deep else rng.sample(ar, min(len(ar), 60))
         # truncations
         cuts = range(len(env)) if (ck.deep and len(env) < 600) else sorted(set(rng.sample(range(len(env)), min(len(env), 40))))
         for c in cuts:
